@@ -4,6 +4,11 @@ From HV Require Import Base.Prelude Model.Store Proofs.Store.
 
 Local Open Scope N_scope.
 
+Section WithPatches.
+(* the two error-path patches may be present or not; everything below holds in all four cases *)
+Variables bp ba : bool.
+Notation cfgb := (gcfg bp ba).
+
 (* ------------------------------------------------------------------ bookkeeping invariant *)
 
 Definition obj_ok (ob : obj) : Prop :=
@@ -45,20 +50,20 @@ Qed.
 Lemma hdr_write_none : forall x k m, hdr_write x k m = None -> max_chunk < hdr_chunk m.
 Proof. intros x k m H. unfold hdr_write in H. destruct (max_chunk <? hdr_chunk m) eqn:E; [|discriminate]. apply N.ltb_lt; exact E. Qed.
 
-Lemma ws_hdr : forall k m, is_hdr k = true -> hdr_chunk m <= max_chunk -> write_sized cfg_fixed k (0 + hdr_size m) = true.
+Lemma ws_hdr : forall k m, is_hdr k = true -> hdr_chunk m <= max_chunk -> write_sized cfgb k (0 + hdr_size m) = true.
 Proof.
   intros k m Hk H. pose proof (hdr_size_le_reserved m H) as H'.
-  destruct k; try discriminate; unfold write_sized, sized, cfg_fixed; cbn [c_reserve_hdr c_reserve_link];
+  destruct k; try discriminate; unfold write_sized, sized, cfgb; cbn [c_reserve_hdr c_reserve_link];
     apply N.leb_le; lia.
 Qed.
 
 Lemma is_hdr_kind : forall ob, is_hdr (hdr_kind ob) = true.
 Proof. intros ob. unfold hdr_kind. destruct (o_kind ob); reflexivity. Qed.
 
-Lemma ws_patch : forall p, p + 8 <= max_hdr -> write_sized cfg_fixed KHeader (p + 8) = true.
+Lemma ws_patch : forall p, p + 8 <= max_hdr -> write_sized cfgb KHeader (p + 8) = true.
 Proof. intros p H. cbn. apply N.leb_le. exact H. Qed.
 
-Lemma ws_leaf : forall n, n <= bt2_maxrec -> write_sized cfg_fixed KBt2Leaf (0 + leaf_size n) = true.
+Lemma ws_leaf : forall n, n <= bt2_maxrec -> write_sized cfgb KBt2Leaf (0 + leaf_size n) = true.
 Proof.
   intros n H. cbn. apply N.leb_le. assert (E : bt2_maxrec = 371) by reflexivity. rewrite E in H.
   unfold leaf_size, bt2_node. lia.
@@ -87,16 +92,19 @@ Definition fail_targets (o : op) (w : oid) (k : kind) : bool :=
 (* calls whose failure can leave bytes behind (orphan extents, or the reference-count message) *)
 Definition may_leave_bytes (o : op) : bool :=
   match o with
-  | OpMkGroup _ _ _ | OpMkContig _ _ _ _ _ _ | OpMkChunked _ _ _ _ _ _ _ | OpMkLink _ _ _ _
-  | OpAttrSet _ None _ _ | OpHardLink _ _ _ _ | OpWrite _ _ => true
+  | OpMkGroup _ _ _ | OpMkChunked _ _ _ _ _ _ _ | OpMkLink _ _ _ _ | OpHardLink _ _ _ _ => negb bp
+  | OpMkContig _ _ _ _ _ _ => true       (* header too large for one chunk: detected after the data allocation *)
+  | OpAttrSet _ None _ _ => negb ba
+  | OpWrite _ _ => true                  (* zero-size chunk: Allocate fails after earlier chunks were written *)
   | _ => false
   end.
 
 Definition good (l : list obj) (T Tf : oid -> kind -> bool) (lv : bool) (r : compiled) : Prop :=
   let '(cmds, ok, upd) := r in
-  cmds_ok cfg_fixed T [] cmds = true /\ objs_ok (upd l) /\
-  (ok = false -> cmds_ok cfg_fixed Tf [] cmds = true) /\
-  (ok = false -> lv = false -> cmds = []).
+  cmds_ok cfgb T [] cmds = true /\ objs_ok (upd l) /\
+  (ok = false -> cmds_ok cfgb Tf [] cmds = true) /\
+  (ok = false -> lv = false -> cmds = []) /\
+  (ok = false -> cmds = [] -> forall l', upd l' = l').
 
 Lemma good_reject : forall l T Tf lv, objs_ok l -> good l T Tf lv reject.
 Proof. intros. cbn. auto. Qed.
@@ -104,11 +112,11 @@ Proof. intros. cbn. auto. Qed.
 Lemma link_spec : forall s p nl dup lc lok upd,
   objs_ok (objs s) -> link_to_parent s p nl dup = (lc, lok, upd) ->
   (lok = false -> lc = []) /\ (forall l, objs_ok l -> objs_ok (upd l)) /\
-  (forall T fr, T p KHeap = true -> T p KSnod = true -> cmds_ok cfg_fixed T fr lc = true).
+  (forall T fr, T p KHeap = true -> T p KSnod = true -> cmds_ok cfgb T fr lc = true).
 Proof.
   intros s p nl dup lc lok upd Ho H. unfold link_to_parent in H.
   assert (R : (lc, lok, upd) = reject -> (lok = false -> lc = []) /\ (forall l, objs_ok l -> objs_ok (upd l)) /\
-              (forall T fr, T p KHeap = true -> T p KSnod = true -> cmds_ok cfg_fixed T fr lc = true)).
+              (forall T fr, T p KHeap = true -> T p KSnod = true -> cmds_ok cfgb T fr lc = true)).
   { intros E. inversion E; subst. auto. }
   destruct (negb (session s =? 0)); [apply R; auto|].
   destruct (get_obj (objs s) p) as [po|] eqn:Eg; [|apply R; auto].
@@ -126,21 +134,30 @@ Ltac arith :=
   unfold max_hdr, max_chunk, hdr_prefix, attrinfo_len in *;
   assert (bt2_maxrec = 371) by reflexivity; lia.
 
-Lemma seq_link_good : forall s p nl dup pre nb T Tf,
-  objs_ok (objs s) -> obj_ok nb ->
-  T p KHeap = true -> T p KSnod = true ->
-  cmds_ok cfg_fixed Tf [] pre = true ->
-  (forall o k, Tf o k = true -> T o k = true) ->
-  good (objs s) T Tf true (seq_link pre (link_to_parent s p nl dup) nb).
+Lemma link_refused_spec : forall s p nl dup lc lok upd,
+  conf s = cfgb -> link_refused s p nl dup = false -> link_to_parent s p nl dup = (lc, lok, upd) ->
+  lok = false -> bp = false.
 Proof.
-  intros s p nl dup pre nb T Tf Ho Hn H1 H2 Hp HT.
+  intros s p nl dup lc lok upd Hcf Hr E F. unfold link_refused in Hr. rewrite Hcf, E in Hr. cbn in Hr.
+  subst lok. destruct bp; [discriminate | reflexivity].
+Qed.
+
+Lemma seq_link_good : forall s p nl dup pre nb T Tf,
+  objs_ok (objs s) -> conf s = cfgb -> link_refused s p nl dup = false -> obj_ok nb ->
+  T p KHeap = true -> T p KSnod = true -> pre <> [] ->
+  cmds_ok cfgb Tf [] pre = true ->
+  (forall o k, Tf o k = true -> T o k = true) ->
+  good (objs s) T Tf (negb bp) (seq_link pre (link_to_parent s p nl dup) nb).
+Proof.
+  intros s p nl dup pre nb T Tf Ho Hcf Hlr Hn H1 H2 Hne Hp HT.
   destruct (link_to_parent s p nl dup) as [[lc lok] upd] eqn:E.
   destruct (link_spec _ _ _ _ _ _ _ Ho E) as (A & B & C).
   cbn [seq_link good]. repeat split.
   - apply cmds_ok_app; [eapply cmds_ok_T_mono; eauto | apply C; auto].
   - apply objs_ok_app; auto.
   - intros F. rewrite (A F), app_nil_r. exact Hp.
-  - discriminate.
+  - intros F Hb. rewrite (link_refused_spec _ _ _ _ _ _ _ Hcf Hlr E F) in Hb. discriminate.
+  - intros F Hnil. apply app_eq_nil in Hnil. destruct Hnil as [Hnil _]. contradiction.
 Qed.
 
 (* creation targets: the new object, and the parent's heap and symbol node *)
@@ -155,7 +172,7 @@ Ltac fresh_cmds :=
   repeat (rewrite ?ws_hdr by (auto; reflexivity)); try reflexivity.
 
 
-Lemma chunk_cmds_ok : forall T y sizes fr cc ok, chunk_cmds y sizes = (cc, ok) -> cmds_ok cfg_fixed T fr cc = true.
+Lemma chunk_cmds_ok : forall T y sizes fr cc ok, chunk_cmds y sizes = (cc, ok) -> cmds_ok cfgb T fr cc = true.
 Proof.
   intros T y. induction sizes as [|n r IH]; intros fr cc ok H; cbn [chunk_cmds] in H.
   - inversion H; subst. reflexivity.
@@ -171,25 +188,34 @@ Definition ff (_ : oid) (_ : kind) : bool := false.
 
 Lemma transition_good : forall l ob hfit again T,
   objs_ok l -> obj_ok ob -> (forall k, T (o_id ob) k = true) ->
-  good l T ff true (transition ob hfit again).
+  good l T ff (negb ba) (transition cfgb ob hfit again).
 Proof.
   intros l ob hfit again T Hl Hob HT. unfold transition.
   destruct (negb hfit); [apply good_reject; auto|].
   set (x := o_id ob). set (k := hdr_kind ob). set (m := o_msgs ob).
   set (nattr := count_type M_ATTR m). set (rest := drop_type M_ATTR m).
   set (tmp := rest ++ [(M_ATTRINFO, attrinfo_len)]).
+  cbn [c_attrinfo gcfg].
+  destruct (ba && (max_hdr <? hdr_size tmp)) eqn:Eai; [apply good_reject; auto|].
+  assert (Hearly : negb ba = false -> hdr_chunk rest + (4 + attrinfo_len) <= max_chunk).
+  { intros Hb. destruct ba; [|discriminate]. cbn in Eai. apply N.ltb_ge in Eai.
+    unfold tmp in Eai. unfold hdr_size in Eai. rewrite hdr_chunk_app in Eai.
+    unfold hdr_chunk at 2 in Eai. cbn [fold_right snd] in Eai. arith. }
   assert (Hn : nattr + 1 <= bt2_maxrec).
   { pose proof (count_le_chunk M_ATTR m). destruct Hob as (_ & B & _). fold m in B. subst nattr. arith. }
-  assert (Hpre : forall T', cmds_ok cfg_fixed T' []
+  assert (Hpre : forall T', cmds_ok cfgb T' []
      [CAdvance x k (hdr_size tmp); CAlloc x KFHeapHdr fh_hdr_size; CAlloc x KFHeapBlk fh_blk_size;
       CWrite x KFHeapHdr 0 fh_hdr_size; CWrite x KFHeapBlk 0 fh_blk_size; CAlloc x KBt2Leaf bt2_node;
       CWrite x KBt2Leaf 0 (leaf_size (nattr + 1)); CAllocWrite x KBt2Hdr bt2_hdr_size] = true).
   { intros T'. cbn [cmds_ok memb existsb fst snd kind_eqb]. rewrite ?N.eqb_refl. cbn [andb orb].
     rewrite (ws_leaf _ Hn). rewrite ?orb_true_r. reflexivity. }
   destruct (max_chunk <? hdr_chunk rest + (4 + attrinfo_len)) eqn:E1.
-  { cbn [good]. repeat split; auto; discriminate. }
+  { cbn [good]. repeat split; auto; try discriminate.
+    intros _ Hb. apply N.ltb_lt in E1. specialize (Hearly Hb). lia. }
   destruct (hdr_write x k tmp) as [w|] eqn:Ew.
-  2:{ cbn [good]. repeat split; auto; discriminate. }
+  2:{ cbn [good]. repeat split; auto; try discriminate.
+      intros _ Hb. apply hdr_write_none in Ew. specialize (Hearly Hb).
+      unfold tmp in Ew. rewrite hdr_chunk_app in Ew. unfold hdr_chunk at 2 in Ew. cbn [fold_right snd] in Ew. lia. }
   destruct (hdr_write_spec _ _ _ _ Ew) as [-> Hc].
   cbn [good]. repeat split; try discriminate.
   - apply cmds_ok_app; [apply Hpre|].
@@ -199,7 +225,7 @@ Proof.
 Qed.
 
 Lemma dense_writes_ok : forall T x n fr, (forall k, T x k = true) -> n <= bt2_maxrec ->
-  cmds_ok cfg_fixed T fr (dense_writes x n) = true.
+  cmds_ok cfgb T fr (dense_writes x n) = true.
 Proof.
   intros T x n fr HT Hn. unfold dense_writes. cbn [cmds_ok]. rewrite !HT. cbn [orb andb].
   rewrite (ws_leaf _ Hn). reflexivity.
@@ -210,7 +236,7 @@ Proof. auto. Qed.
 
 Lemma attr_set_good : forall l ob idx alen hfit T,
   objs_ok l -> obj_ok ob -> (forall k, T (o_id ob) k = true) ->
-  good l T ff (match idx with None => true | Some _ => false end) (attr_set ob idx alen hfit).
+  good l T ff (match idx with None => negb ba | Some _ => false end) (attr_set cfgb ob idx alen hfit).
 Proof.
   intros l ob idx alen hfit T Hl Hob HT. unfold attr_set.
   pose proof Hob as (PA & PB & PC).
@@ -270,14 +296,14 @@ Qed.
 
 Lemma good_weaken : forall l T Tf lv r, good l T ff lv r -> good l T Tf lv r.
 Proof.
-  intros l T Tf lv [[cmds ok] upd] (A & B & C & D). cbn [good]. repeat split; auto.
+  intros l T Tf lv [[cmds ok] upd] (A & B & C & D & E). cbn [good]. repeat split; auto.
   intros F. eapply cmds_ok_T_mono; [|apply C; exact F]. intros; discriminate.
 Qed.
 
-Lemma good_lv : forall l T Tf r, good l T Tf false r -> good l T Tf true r.
-Proof. intros l T Tf [[cmds ok] upd] (A & B & C & D). cbn [good]. repeat split; auto. Qed.
+Lemma good_lv : forall l T Tf lv r, good l T Tf lv r -> good l T Tf true r.
+Proof. intros l T Tf lv [[cmds ok] upd] (A & B & C & D & E). cbn [good]. repeat split; auto. discriminate. Qed.
 
-Lemma compile_good : forall s o, objs_ok (objs s) -> conf s = cfg_fixed ->
+Lemma compile_good : forall s o, objs_ok (objs s) -> conf s = cfgb ->
   good (objs s) (targets s o) (fail_targets o) (may_leave_bytes o) (compile s o).
 Proof.
   intros s o Ho Hcf. unfold compile. rewrite Hcf.
@@ -286,22 +312,26 @@ Proof.
     try (apply good_reject; auto; fail).
   - (* OpMkGroup *)
     destruct (negb (parent_known s p)); [apply good_reject; auto|].
+    destruct (link_refused s p nl dup) eqn:Elr; [apply good_reject; auto|].
     destruct (hdr_write (opidx s + 1) KHeader [(M_SYMTAB, 16)]) as [w|] eqn:Ew; [|apply good_reject; auto].
     destruct (hdr_write_spec _ _ _ _ Ew) as [-> Hc].
-    apply seq_link_good; auto.
+    cbn [may_leave_bytes]. apply seq_link_good; auto.
     + unfold obj_ok, new_obj; cbn. arith.
     + cbn [targets]. apply tgt_create_parent; reflexivity.
     + cbn [targets]. apply tgt_create_parent; reflexivity.
+    + discriminate.
     + fresh_cmds.
     + apply ff_imp.
   - (* OpMkContig *)
     destruct (dsize =? 0); [apply good_reject; auto|].
+    destruct (link_refused s p nl dup) eqn:Elr; [apply good_reject; auto|].
     destruct (hdr_write (opidx s + 1) KHeader _) as [w|] eqn:Ew.
     + destruct (hdr_write_spec _ _ _ _ Ew) as [-> Hc].
-      apply seq_link_good; auto.
+      cbn [may_leave_bytes]. eapply good_lv. apply seq_link_good; auto.
       * unfold obj_ok, new_obj; cbn [o_poff o_msgs o_nrec]. arith.
       * cbn [targets]. apply tgt_create_parent; reflexivity.
       * cbn [targets]. apply tgt_create_parent; reflexivity.
+      * discriminate.
       * fresh_cmds.
       * apply ff_imp.
     + cbn [good may_leave_bytes]. repeat split; auto; try discriminate.
@@ -310,22 +340,26 @@ Proof.
     set (pipe := if lpipe =? 0 then [] else [(M_PIPELINE, lpipe)]).
     destruct (hdr_write (opidx s + 1) KHeader _) as [w|] eqn:Ew; [|apply good_reject; auto].
     destruct (hdr_write_spec _ _ _ _ Ew) as [-> Hc].
-    apply seq_link_good; auto.
+    destruct (link_refused s p nl dup) eqn:Elr; [apply good_reject; auto|].
+    cbn [may_leave_bytes]. apply seq_link_good; auto.
     + unfold obj_ok, new_obj; cbn [o_poff o_msgs o_nrec].
       split; [|split; [exact Hc | arith]].
       rewrite hdr_chunk_app in Hc. unfold hdr_chunk in Hc at 1. cbn [fold_right snd] in Hc. arith.
     + cbn [targets]. apply tgt_create_parent; reflexivity.
     + cbn [targets]. apply tgt_create_parent; reflexivity.
+    + discriminate.
     + fresh_cmds.
     + apply ff_imp.
   - (* OpMkLink *)
     destruct (negb (parent_known s p)); [apply good_reject; auto|].
     destruct (hdr_write (opidx s + 1) KLinkHdr [(M_LINK, mlen)]) as [w|] eqn:Ew; [|apply good_reject; auto].
     destruct (hdr_write_spec _ _ _ _ Ew) as [-> Hc].
-    apply seq_link_good; auto.
+    destruct (link_refused s p nl dup) eqn:Elr; [apply good_reject; auto|].
+    cbn [may_leave_bytes]. apply seq_link_good; auto.
     + unfold obj_ok, new_obj; cbn [o_poff o_msgs o_nrec]. split; [arith | split; [exact Hc | arith]].
     + cbn [targets]. apply tgt_create_parent; reflexivity.
     + cbn [targets]. apply tgt_create_parent; reflexivity.
+    + discriminate.
     + fresh_cmds.
     + apply ff_imp.
   - (* OpWrite *)
@@ -369,6 +403,7 @@ Proof.
     destruct (negb (parent_known s p)); [apply good_reject; auto|].
     destruct (negb (session s =? 0)); [apply good_reject; auto|].
     destruct (get_obj (objs s) tgt) as [tb|] eqn:Eg; [|apply good_reject; auto].
+    destruct (link_refused s p nl dup) eqn:Elr; [apply good_reject; auto|].
     pose proof (get_obj_ok _ _ _ Ho Eg) as Hob. pose proof Hob as (PA & PB & PC).
     match goal with |- context [match ?X with Some m' => _ | None => reject end] => destruct X as [m'|] end;
       [|apply good_reject; auto].
@@ -376,7 +411,7 @@ Proof.
     destruct (hdr_write_spec _ _ _ _ Ew) as [-> Hc].
     destruct (link_to_parent s p nl dup) as [[lc lok] upd] eqn:El.
     destruct (link_spec _ _ _ _ _ _ _ Ho El) as (A & B & C).
-    assert (Hw : forall fr, cmds_ok cfg_fixed (fail_targets (OpHardLink p nl dup tgt)) fr
+    assert (Hw : forall fr, cmds_ok cfgb (fail_targets (OpHardLink p nl dup tgt)) fr
                    [CWrite tgt (hdr_kind tb) 0 (hdr_size m'); CWrite tgt (hdr_kind tb) 0 (hdr_size m')] = true).
     { intros fr. cbn [cmds_ok fail_targets]. rewrite N.eqb_refl, (is_hdr_kind tb). cbn [andb orb].
       rewrite (ws_hdr _ _ (is_hdr_kind tb) Hc). reflexivity. }
@@ -389,7 +424,10 @@ Proof.
            rewrite (ws_hdr _ _ (is_hdr_kind tb) Hc). reflexivity.
         -- apply C; cbn [targets]; rewrite N.eqb_refl; cbn; apply orb_true_r.
       * apply set_msgs_ok; auto.
-    + cbn [good]. repeat split; auto; try discriminate.
+    + cbn [good may_leave_bytes]. repeat split; auto; try discriminate.
       * eapply cmds_ok_T_mono; [exact HTT | apply Hw].
       * apply set_msgs_ok; auto.
+      * intros _ Hb. rewrite (link_refused_spec _ _ _ _ _ _ _ Hcf Elr El eq_refl) in Hb. discriminate.
 Qed.
+
+End WithPatches.
